@@ -53,20 +53,29 @@ def joinWith (sep : String) : List String → String
   | [x] => x
   | x :: xs => x ++ sep ++ joinWith sep xs
 
-/-- `ProvRecord.get_provn()` -/
-def provnRecord (r : Record) : String :=
-  let idItems : List String × String :=
-    match r.id with
-    | some q => if r.kind.isElement then ([q.print], "") else ([], q.print ++ "; ")
-    | none => ([], "")
-  let formals : List String := r.kind.formals.map (fun l =>
+/-- identifier part: an element lists its identifier first; a relation writes `id; ` before its arguments -/
+def provnIdItems (r : Record) : List String × String :=
+  match r.id with
+  | some q => if r.kind.isElement then ([q.print], "") else ([], q.print ++ "; ")
+  | none => ([], "")
+
+/-- the positional arguments: the first value of each formal attribute, or the marker -/
+def provnFormals (r : Record) : List String :=
+  r.kind.formals.map (fun l =>
     match (r.get (formalQ l)).head? with
     | some v => provnFormal v
     | none => "-")
-  let extras : List String := (r.attrs.filter (fun p => !isFormalOf r.kind p.1)).flatMap (fun p =>
+
+/-- `name=value` for every other (attribute, value) pair -/
+def provnExtras (r : Record) : List String :=
+  (r.attrs.filter (fun p => !isFormalOf r.kind p.1)).flatMap (fun p =>
     p.2.map (fun v => p.1.print ++ "=" ++ provnValue v))
-  let items := idItems.1 ++ formals ++ (if extras.isEmpty then [] else ["[" ++ joinWith ", " extras ++ "]"])
-  r.kind.provN ++ "(" ++ idItems.2 ++ joinWith ", " items ++ ")"
+
+/-- `ProvRecord.get_provn()` -/
+def provnRecord (r : Record) : String :=
+  let items := (provnIdItems r).1 ++ provnFormals r ++
+    (if (provnExtras r).isEmpty then [] else ["[" ++ joinWith ", " (provnExtras r) ++ "]"])
+  r.kind.provN ++ "(" ++ (provnIdItems r).2 ++ joinWith ", " items ++ ")"
 
 def indentStr (n : Nat) : String := String.ofList (List.replicate (2 * n) ' ')
 
